@@ -229,6 +229,12 @@ func TDRandom(rng *rand.Rand, n int, startID int) []*TDCase {
 			&TDCase{ID: id + 1, Name: "fmt", In: map[string]string{"in": "d/f.txt"}, Joined: map[string][]string{}, Params: map[string]string{}, Tags: map[string]string{"in.fmt": v}},
 			&TDCase{ID: id + 2, Name: "step " + v, In: map[string]string{"in": "d/f.txt"}, Joined: map[string][]string{}, Params: map[string]string{}, Tags: map[string]string{}})
 	}
+	// input paths that (in the evaluating process's working directory) are symbolic links to the same file, the file
+	// itself, and the same file through a symbolic link to its directory
+	for k, pth := range []string{"lnk/a.txt", "lnk/b.txt", "lnk/real.txt", "data/sample.txt", "ldir/sample.txt"} {
+		out = append(out, &TDCase{ID: id + 20 + k, Name: "linked", In: map[string]string{"in": pth}, Joined: map[string][]string{}, Params: map[string]string{}, Tags: map[string]string{}},
+			&TDCase{ID: id + 40 + k, Name: "linked2", In: map[string]string{"in": "d/f.txt"}, Joined: map[string][]string{"parts": {pth, "d/g.txt"}}, Params: map[string]string{}, Tags: map[string]string{}})
+	}
 	// two parameter names that differ only in case
 	for k, v := range []string{"1", "2"} {
 		out = append(out, &TDCase{ID: id + 10 + k, Name: "cased", In: map[string]string{"in": "d/f.txt"}, Joined: map[string][]string{}, Params: map[string]string{"n": v, "N": "7"}, Tags: map[string]string{"in.k": "x", "in.K": "y"}})
